@@ -84,6 +84,10 @@ func (c *FnCtx) exec(in ssa.Instruction) {
 		c.allocOf[r] = in
 		if allocIsLocal(in, 0) {
 			c.localCells = append(c.localCells, r)
+		} else if len(c.inlineStack) == 0 {
+			if esc, ok := allocEscapes(in, 0); ok && len(esc) > 0 {
+				c.condCells = append(c.condCells, condCell{term: r, escapes: esc})
+			}
 		}
 		// zero-initialise
 		c.storeLoc(c.cellLoc(r, t), c.zero(t))
@@ -229,7 +233,7 @@ func (c *FnCtx) havocAll() {
 	if c.discover {
 		return
 	}
-	for _, a := range c.localCells {
+	for _, a := range c.stillLocalCells() {
 		for _, name := range heapNamesSorted(c.heap) {
 			n := strings.Trim(name, "|")
 			if !(strings.HasPrefix(n, "H ") || strings.HasPrefix(n, "Cell ") || strings.HasPrefix(n, "Elems ")) {
@@ -567,4 +571,114 @@ func (c *FnCtx) preEnv() *Env {
 		env.names[fv.Name()] = mkLoc(c.vals[fv])
 	}
 	return env
+}
+
+// condCell is a local variable whose address does escape (captured by a goroutine or stored), but only at the
+// listed instructions: until one of them can have executed, no other code can reach the cell.
+type condCell struct {
+	term    string
+	escapes []ssa.Instruction
+}
+
+// stillLocalCells: cells no callee can reach at the current program point.
+func (c *FnCtx) stillLocalCells() []string {
+	out := append([]string{}, c.localCells...)
+	if len(c.inlineStack) > 0 || c.curBlock == nil {
+		return out
+	}
+	for _, cc := range c.condCells {
+		if !c.mayHaveExecuted(cc.escapes, c.curBlock, c.curIdx) {
+			out = append(out, cc.term)
+		}
+	}
+	return out
+}
+
+// mayHaveExecuted: some instruction of es can have run before the point (b, idx) on some path.
+func (c *FnCtx) mayHaveExecuted(es []ssa.Instruction, b *ssa.BasicBlock, idx int) bool {
+	for _, e := range es {
+		eb := e.Block()
+		if eb == nil || eb.Parent() != b.Parent() {
+			return true
+		}
+		if eb == b {
+			for i, in := range b.Instrs {
+				if in == e && i < idx {
+					return true
+				}
+			}
+		}
+		if c.blockReaches(eb, b) {
+			return true
+		}
+	}
+	return false
+}
+
+// blockReaches: there is a path of at least one edge from a to b.
+func (c *FnCtx) blockReaches(a, b *ssa.BasicBlock) bool {
+	if c.reachMemo == nil {
+		c.reachMemo = map[*ssa.BasicBlock]map[*ssa.BasicBlock]bool{}
+	}
+	m, ok := c.reachMemo[a]
+	if !ok {
+		m = map[*ssa.BasicBlock]bool{}
+		work := append([]*ssa.BasicBlock{}, a.Succs...)
+		for len(work) > 0 {
+			x := work[len(work)-1]
+			work = work[:len(work)-1]
+			if m[x] {
+				continue
+			}
+			m[x] = true
+			work = append(work, x.Succs...)
+		}
+		c.reachMemo[a] = m
+	}
+	return m[b]
+}
+
+// allocEscapes lists the instructions at which the address of a (or an interior pointer derived from it) leaves
+// the load/store/addressing discipline. ok=false: cannot tell (treat as escaping from the start).
+func allocEscapes(a ssa.Value, depth int) (esc []ssa.Instruction, ok bool) {
+	if depth > 4 {
+		return nil, false
+	}
+	refs := a.Referrers()
+	if refs == nil {
+		return nil, false
+	}
+	for _, r := range *refs {
+		switch x := r.(type) {
+		case *ssa.DebugRef:
+		case *ssa.Store:
+			if x.Val == a {
+				esc = append(esc, x)
+			}
+		case *ssa.UnOp:
+			if x.Op != token.MUL {
+				esc = append(esc, x)
+			}
+		case *ssa.FieldAddr:
+			e2, ok2 := allocEscapes(x, depth+1)
+			if !ok2 {
+				return nil, false
+			}
+			esc = append(esc, e2...)
+		case *ssa.IndexAddr:
+			e2, ok2 := allocEscapes(x, depth+1)
+			if !ok2 {
+				return nil, false
+			}
+			esc = append(esc, e2...)
+		case *ssa.Phi:
+			return nil, false
+		case ssa.Instruction:
+			// calls, closures, conversions, sends, ...: the address may be retained from here on
+			esc = append(esc, x)
+		default:
+			return nil, false
+		}
+	}
+	return esc, true
 }
